@@ -155,8 +155,9 @@ class Ctx:
 
 
 def witness_hash(w):
+    # `what` is for humans and may contain object ids; the identity of a witness is (monitor, structured features, case)
     key = json.dumps(
-        {k: w.get(k) for k in ("property", "monitor", "what", "features", "case")},
+        {k: w.get(k) for k in ("property", "monitor", "features", "case")},
         sort_keys=True,
         default=str,
     )
